@@ -36,6 +36,8 @@ class Cfg:
         self.burst = 0            # send this many MTU-size messages at once
         self.probe = True
         self.unicode_labels = False
+        self.protect_reconfig = True   # never drop datagrams carrying RE-CONFIG (known finding K02)
+        self.sseq_origin = None        # start stream sequence numbers of new channels here (C17)
         self.__dict__.update(kw)
 
 
@@ -79,6 +81,10 @@ def apply_op(env, op, toks):
                 env.fire(h)
                 return True
         return False
+    elif k == "sseq":
+        if op[1] >= len(toks) or toks[op[1]] is None:
+            return False
+        env.shift_sseq(toks[op[1]], op[2])
     elif k == "advance":
         env.advance(op[1])
     elif k == "stop":
@@ -151,7 +157,7 @@ def random_ops(r, cfg):
                 return False
             p = r.choice(env.net[:6]) if r.random() < 0.8 else r.choice(env.net)
             x = r.random()
-            if allow_fault and x < cfg.p_drop:
+            if allow_fault and x < cfg.p_drop and not (cfg.protect_reconfig and env.has_reconfig(p)):
                 do(("drop",) + p["id"])
             elif allow_fault and x < cfg.p_drop + cfg.p_dup:
                 do(("dup",) + p["id"])
